@@ -42,6 +42,12 @@ def build(sc, budgets=None):
         entry = ctl
     elif layout == "micro800":
         entry = ctl          # no backplane at all
+    elif layout == "slc":
+        from .slc_target import SlcController
+        ch = world.add_chassis(1)
+        entry = SlcController(world, w["table"], w.get("identity"), w.get("io_words", 4))
+        ch.put(0, entry)
+        ctl = None
     elif layout == "cip":
         entry = Module(world, w.get("identity"))      # a bare CIP device
         entry.kind = "cipdev"
